@@ -6,6 +6,7 @@ import (
 	"encoding/hex"
 	"encoding/json"
 	"fmt"
+	"github.com/foxglove/mcap/go/mcap"
 	"io"
 	"os"
 	"os/exec"
@@ -583,6 +584,76 @@ func (p *c16) Check(sc *runner.Scenario, st *runner.Stats, pin string) *runner.V
 	if d := model.DiffSeq(c.Messages, scan.Msgs); d != "" {
 		if v := mk("py_to_go:scan:messages", "Go scan: %s", d); v != nil {
 			return v
+		}
+	}
+	// random access through the index entries the Python writer emitted
+	{
+		src := simdisk.NewSeekSource(img, del, nil)
+		var rerr error
+		var problem string
+		pi := drive.Guard(func() {
+			rd, err := mcap.NewReader(src)
+			if err != nil {
+				rerr = err
+				return
+			}
+			defer rd.Close()
+			info, err := rd.Info()
+			if err != nil {
+				rerr = err
+				return
+			}
+			if len(info.MetadataIndexes) > 0 && len(info.MetadataIndexes) != len(c.Metadata) {
+				problem = fmt.Sprintf("%d metadata index entries for %d metadata records", len(info.MetadataIndexes), len(c.Metadata))
+				return
+			}
+			for i, mi := range info.MetadataIndexes {
+				md, err := rd.GetMetadata(mi.Offset)
+				if err != nil {
+					problem = fmt.Sprintf("metadata %d via the index offset %d: %v", i, mi.Offset, err)
+					return
+				}
+				if d := model.Diff(c.Metadata[i], drive.MetadataRec(md)); d != "" {
+					problem = fmt.Sprintf("metadata %d via the index: %s", i, d)
+					return
+				}
+				st.Inc("probe.go_metadata_random_access_on_python_file")
+			}
+			if len(info.AttachmentIndexes) > 0 && len(info.AttachmentIndexes) != len(c.Attachments) {
+				problem = fmt.Sprintf("%d attachment index entries for %d attachments", len(info.AttachmentIndexes), len(c.Attachments))
+				return
+			}
+			for i, ai := range info.AttachmentIndexes {
+				ar, err := rd.GetAttachmentReader(ai.Offset)
+				if err != nil {
+					problem = fmt.Sprintf("attachment %d via the index offset %d: %v", i, ai.Offset, err)
+					return
+				}
+				data, err := io.ReadAll(ar.Data())
+				if err != nil {
+					problem = fmt.Sprintf("attachment %d via the index: %v", i, err)
+					return
+				}
+				got := &model.Rec{Kind: "attachment", LogTime: ar.LogTime, PubTime: ar.CreateTime, Name: ar.Name, Enc: ar.MediaType, Data: data}
+				w := *c.Attachments[i]
+				w.HasSize = false
+				if d := model.Diff(&w, got); d != "" {
+					problem = fmt.Sprintf("attachment %d via the index: %s", i, d)
+					return
+				}
+			}
+		})
+		st.Evaluations++
+		if pi != nil {
+			return mk("py_to_go:random_access:go_error", "Go random access panicked on a Python-written file: %s", pi)
+		}
+		if rerr != nil {
+			return mk("py_to_go:random_access:go_error", "Go NewReader/Info failed on a Python-written file: %v", rerr)
+		}
+		if problem != "" {
+			if v := mk("py_to_go:random_access", "%s", problem); v != nil {
+				return v
+			}
 		}
 	}
 	if fileIndexed(img) {
